@@ -4,12 +4,12 @@
    lc.Program()            Chain.program lc (its error is returned unchanged)
    s := map[uint]uint{}    association list N * N, missing key reads 0
    a, b := MinMax(..)      Bits.min_max
-   IsUint64 guard          is_uint64 (0 <= v < 2^64), error class "toolarge"
+   IsUint64 guard          is_uint64 (0 <= v < 2^64) on the sum lc[k+1], error class "toolarge"
    la, lb uint             N (values below 2^64 after the guard)
    inner for loop          shift_loop, structural on the variant la - s[lb]; it appends rb << (t+1)
                            for t = s[lb] .. la-1 and leaves s[lb] = la; s[lb]+1 <= la < 2^64 never wraps
    Ones(la+lb)             the uint sum wraps: ones ((la + lb) mod 2^64)
-   lc[op.I], lc[op.J]      nth_error, Panic "index" on a miss (Program only returns indices < len) *)
+   lc[op.I], lc[op.J], lc[k+1]   nth_error, Panic "index" on a miss (Program returns len-1 ops with indices < len) *)
 From Coq Require Import String.
 From Coq Require Import List NArith ZArith Bool Arith.
 From AV Require Import model.Proto model.Chain model.Bits.
@@ -33,12 +33,15 @@ Fixpoint shift_loop (cnt : nat) (rb : Z) (t : N) : list Z :=
   | S m => Z.shiftl rb (Z.of_N (t + 1)) :: shift_loop m rb (t + 1)
   end.
 
-Definition runs_step (lc : list Z) (st : list Z * list (N * N)) (o : op) : outcome (list Z * list (N * N)) :=
+(* body of `for k, op := range p`: the guard is on the sum lc[k+1] (fix 5bad32e); a.Uint64(),
+   b.Uint64() are then exact because Program only accepts chains of positive values, so both
+   operands are below their sum *)
+Definition runs_step (lc : list Z) (st : list Z * list (N * N)) (k : nat) (o : op) : outcome (list Z * list (N * N)) :=
   let '(c, s) := st in
-  match nth_error lc (fst o), nth_error lc (snd o) with
-  | Some x, Some y =>
+  match nth_error lc (fst o), nth_error lc (snd o), nth_error lc (S k) with
+  | Some x, Some y, Some z =>
       let '(a, b) := min_max x y in
-      if negb (is_uint64 a) || negb (is_uint64 b) then Err ($"toolarge")
+      if negb (is_uint64 z) then Err ($"toolarge")
       else
         let la := Z.to_N a in
         let lb := Z.to_N b in
@@ -47,15 +50,15 @@ Definition runs_step (lc : list Z) (st : list Z * list (N * N)) (o : op) : outco
         let shifts := shift_loop (N.to_nat (la - sb)) rb sb in
         let s' := if sb <? la then sset s lb la else s in
         Ok (c ++ shifts ++ [ones (wrap64 (la + lb))], s')
-  | _, _ => Panic ($"index")
+  | _, _, _ => Panic ($"index")
   end.
 
-Fixpoint runs_loop (lc : list Z) (p : list op) (st : list Z * list (N * N)) : outcome (list Z) :=
+Fixpoint runs_loop (lc : list Z) (p : list op) (k : nat) (st : list Z * list (N * N)) : outcome (list Z) :=
   match p with
   | [] => Ok (fst st)
-  | o :: r => obind (runs_step lc st o) (runs_loop lc r)
+  | o :: r => obind (runs_step lc st k o) (runs_loop lc r (S k))
   end.
 
 (* c := addchain.New(); s := map[uint]uint{} *)
 Definition runs_chain (lc : list Z) : outcome (list Z) :=
-  obind (program lc) (fun p => runs_loop lc p ([1%Z], [])).
+  obind (program lc) (fun p => runs_loop lc p 0 ([1%Z], [])).
